@@ -286,6 +286,9 @@ class WStub:
     def get_weight(self, q, Q2, ct, cc_mask=None):
         if Q2 is not self.sy.Q2:
             self.bad_Q2 = True
+        if not (isinstance(q, (int, np.integer)) and 1 <= abs(int(q)) <= 6):
+            # precondition of the callee (pre-at-call): the real get_weight fails in its table lookups
+            raise LookupError(f"precondition of CouplingConstants.get_weight violated at the call site: pid={q!r} is not a quark")
         if self.obs_config["process"] != "CC" and self.pos_pid is not None and abs(q) != self.pos_pid:
             return 0.0
         if self.obs_config["process"] == "CC" and self.cc_spec:
@@ -301,6 +304,8 @@ class WStub:
     def get_fl11_weight(self, q, Q2, nf, ct):
         if Q2 is not self.sy.Q2:
             self.bad_Q2 = True
+        if not (isinstance(q, (int, np.integer)) and 1 <= abs(int(q)) <= 6 and 1 <= int(nf) <= 6):
+            raise LookupError(f"precondition of CouplingConstants.get_fl11_weight violated at the call site: pid={q!r}, nf={nf!r}")
         if self.obs_config["process"] == "CC":
             return 0.0
         if self.pos_pid is not None and abs(q) != self.pos_pid:
